@@ -60,6 +60,15 @@ func handCases() []Hand {
 		{P: prog(Defn("lz2", []string{"#x", "y"}, "", plus(force("#x"), Var("y"))), Def("v", Arr(Int(1), Int(2))),
 			CallN("list", CallN("apply", Var("lz2"), Var("v")), Var("v"), CallN("apply", Var("lz2"), Var("v")), CallN("apply", Var("+"), Var("v")))),
 			Oracle: "noerr;val:<P_I3_<P_[I1_I2]_<P_I3_<P_I3_N>>>>"},
+		// a lazy argument that is a bare variable is looked up LEXICALLY from the caller
+		{P: prog(Def("a", Int(1)), Defn("recv", []string{"#x"}, "", force("#x")), Defn("caller", nil, "", CallN("recv", Var("a"))),
+			Defn("callerx", nil, "", CallN("recv", plus(Var("a"), Int(0)))), Defn("outer", []string{"a"}, "", CallN("list", CallN("caller"), CallN("callerx"))),
+			CallN("outer", Int(2))), Oracle: "val:<P_I1_<P_I1_N>>"},
+		{P: prog(Def("k", Int(100)), Defn("recv", []string{"#x"}, "", force("#x")), Defn("mk", []string{"k"}, "", Fn(nil, "", CallN("recv", Var("k")))),
+			Def("th", CallN("mk", Int(5))), Defn("run", []string{"f"}, "", CallN("f")), CallN("run", Var("th"))), Oracle: "val:I5"},
+		{P: prog(Def("a", Int(1)), Defn("keep", []string{"#x"}, "", Var("#x")), Defn("caller", nil, "", CallN("keep", Var("a"))),
+			Defn("outer", []string{"a"}, "", CallN("caller")), Def("t", CallN("outer", Int(2))), Defn("later", []string{"a"}, "", force("t")),
+			CallN("list", CallN("later", Int(3)), force("t"))), Oracle: "val:<P_I1_<P_I1_N>>"},
 		// a thunk is a first-class value: passing #x on hands the thunk to a strict formal
 		{P: prog(Defn("h", []string{"y"}, "", Var("y")), Defn("g", []string{"#x"}, "", CallN("h", Var("#x"))), CallN("g", tr(1))),
 			Oracle: "zero:I1;val:LZ", Tags: []string{"thunk-passed-on"}},
